@@ -103,7 +103,10 @@ def gen(rng, tier):
         yield {"family": "cli.keeps-file", "kind": "keeps", "key": key, "value": _value(rng, tag, n), "tag": tag,
                "other": [other[0], other[1][0], other[1][1], _value(rng, other[1][0], n)]}
     binds = ["127.0.0.{a}:0", "127.0.0.{a}", "[::1]:0", "[::1]", "localhost:0", "unix:{tmp}/s.sock", "fd://stream", "fd://dgram-as-stream",
-             "127.0.0.{a}:0|dgram", "[::]:0", "0.0.0.0:0"]
+             "127.0.0.{a}:0|dgram", "[::]:0", "0.0.0.0:0",
+             # relative unix paths (resolved against the working directory, which the check moves into its scratch directory): the path is
+             # everything after the "unix:" prefix, whatever characters it starts with
+             "unix:instance.sock", "unix:nginx-upstream.sock", "unix:x.sock", "unix:unix.sock", "unix:./rel.sock", "unix::odd.sock"]
     for b in binds:
         for i in range(3 if tier == "quick" else 6):
             n += 1
@@ -419,17 +422,31 @@ def _check_bind(case, tmp, tally):
             return out
         _AUDIT["events"].clear()
         _AUDIT["on"] = True
+        cwd = os.getcwd()
         try:
+            if b.startswith("unix:") and not b.startswith("unix:/"):
+                os.makedirs(os.path.join(tmp, "u"), exist_ok=True)
+                os.chdir(tmp)
             socks = cfg._create_sockets([b], socket.SOCK_DGRAM if dgram else socket.SOCK_STREAM)
             err = None
         except OSError as e:
             socks, err = [], e
         finally:
             _AUDIT["on"] = False
+        try:
+            holder.extend(socks)
+            tally.clause("bind")
+            if b.startswith("unix:"):
+                if err is not None or not socks or socks[0].family != socket.AF_UNIX or socks[0].getsockname() != b[5:] or not os.path.exists(b[5:]):
+                    out.append({"clause": "bind", "sig": "C19.bind/unix", "detail": "unix bind %r -> %r %r (exists: %r)" % (
+                        b, err, socks and socks[0].getsockname(), os.path.exists(b[5:]))})
+                return out
+        finally:
+            os.chdir(cwd)
         holder.extend(socks)
         tally.clause("bind")
         if b.startswith("unix:"):
-            if err is not None or not socks or socks[0].family != socket.AF_UNIX or socks[0].getsockname() != b[5:]:
+            if err is not None or not socks or socks[0].family != socket.AF_UNIX or socks[0].getsockname() != b[5:] or not os.path.exists(b[5:]):
                 out.append({"clause": "bind", "sig": "C19.bind/unix", "detail": "unix bind %r -> %r %r" % (b, err, socks and socks[0].getsockname())})
             return out
         fam, addr = ref_parse(b)
